@@ -11,6 +11,7 @@ operations of the request have been executed) and stores the rows in the case
 from __future__ import annotations
 
 import itertools
+import re
 import warnings
 
 from .core import Suite, cN, cbool, clist, copt, ctuple
@@ -37,6 +38,8 @@ ASSUMPTIONS = [
     "WHERE under WITH alone does not use GRAPH; under USING / USING NAMED (also USING NAMED alone) the solution list is "
     "computed on the dataset SPARQL 1.1 Update 3.1.3 prescribes (default graph = merge of the USING graphs, empty without "
     "USING; named graphs = the USING NAMED graphs) and the pattern is free of GRAPH or GRAPH <one of the USING NAMED graphs>",
+    "request texts use absolute IRIs or (case field spell) one PREFIX/BASE prologue per operation with prefixes re-declared "
+    "and BASE changed between operations; the abstract request and the model always have absolute IRIs",
     "the request text spells a graph's template/data triples as one GRAPH group or (case field split) as two interleaved "
     "GRAPH groups; the model has one block per graph",
     "a graph absent from the store is the empty graph (no failure demanded for missing graphs)",
@@ -104,8 +107,53 @@ WHERE_OF_GRAPH = {1: 5, 2: 8, 5: 9}  # graph id -> index of the pattern GRAPH <t
 
 
 # ---------------------------------------------------------------- rendering
+# How the IRIs of the operation being rendered are spelled: None = absolute <...>, else a dict made by
+# prologue_of().  The abstract request (and what the model gets) always has absolute IRIs; only the text varies.
+_SP = None
+E_NS = "http://e/"
+G_NS = "urn:g:"
+
+
+def prologue_of(spell, k):
+    """prologue of the k-th operation under spelling scheme `spell` (an int): consecutive operations
+    re-declare the two prefixes v: and w: with swapped namespaces and change BASE, so that resolving an
+    operation under another operation's declarations gives different IRIs"""
+    m = (spell + k) % 4
+    if m == 0:
+        return {"text": "PREFIX v: <%s> PREFIX w: <%s> " % (E_NS, G_NS), "e": "v:", "g": "w:"}
+    if m == 1:
+        return {"text": "PREFIX v: <%s> PREFIX w: <%s> " % (G_NS, E_NS), "e": "w:", "g": "v:"}
+    if m == 2:
+        return {"text": "BASE <%s> PREFIX v: <urn:x:> PREFIX w: <%s> " % (E_NS, G_NS), "e": None, "g": "w:"}
+    return {"text": "BASE <http://f/> PREFIX w: <urn:y:> PREFIX v: <%s> " % G_NS, "e": "<" + E_NS, "g": "v:"}
+
+
+def r_iri(iri):
+    iri = str(iri)
+    if _SP is not None:
+        if iri.startswith(E_NS):
+            local = iri[len(E_NS):]
+            if _SP["e"] is None:
+                return "<%s>" % local              # relative to BASE <http://e/>
+            if _SP["e"].startswith("<"):
+                return "<%s>" % iri                # absolute while another BASE is in force
+            return _SP["e"] + local
+        if iri.startswith(G_NS):
+            return _SP["g"] + iri[len(G_NS):]
+    return "<%s>" % iri
+
+
+def r_where(text):
+    return re.sub(r"<((?:http://e/|urn:g:)[^>]*)>", lambda m: r_iri(m.group(1)), text)
+
+
+def r_graph(c):
+    return r_iri(GRAPH_POOL[c - 1])
+
+
 def r_term(i):
-    return term(i).n3()
+    t = term(i)
+    return r_iri(t) if isinstance(t, URIRef) else t.n3()
 
 
 def r_pos(p):
@@ -121,7 +169,7 @@ def r_tpats(ts):
 
 
 def r_gterm(g):
-    return "<%s>" % GRAPH_POOL[g[1] - 1] if g[0] == "c" else "?" + VARS[g[1]]
+    return r_graph(g[1]) if g[0] == "c" else "?" + VARS[g[1]]
 
 
 def r_groups(blocks, split):
@@ -147,15 +195,15 @@ def r_tmpl(tm, split=False):
 def r_data(ts, qs, split=False):
     out = " ".join("%s %s %s ." % tuple(r_term(x) for x in t) for t in ts)
     return out + r_groups(
-        [("<%s>" % GRAPH_POOL[c - 1], ["%s %s %s ." % tuple(r_term(x) for x in t) for t in bts]) for c, bts in qs], split)
+        [(r_graph(c), ["%s %s %s ." % tuple(r_term(x) for x in t) for t in bts]) for c, bts in qs], split)
 
 
 def r_gspec(g):
-    return {"default": "DEFAULT", "named": "NAMED", "all": "ALL"}.get(g) or "GRAPH <%s>" % GRAPH_POOL[g - 1]
+    return {"default": "DEFAULT", "named": "NAMED", "all": "ALL"}.get(g) or "GRAPH %s" % r_graph(g)
 
 
 def r_gd(g):
-    return "DEFAULT" if g == "default" else "<%s>" % GRAPH_POOL[g - 1]
+    return "DEFAULT" if g == "default" else r_graph(g)
 
 
 def r_op(op, split=False):
@@ -170,24 +218,34 @@ def r_op(op, split=False):
         _, w, ud, un, d, i, wk = op
         s = ""
         if w is not None:
-            s += "WITH <%s> " % GRAPH_POOL[w - 1]
+            s += "WITH %s " % r_graph(w)
         if d is not None:
             s += "DELETE { %s } " % r_tmpl(d, split)
         if i is not None:
             s += "INSERT { %s } " % r_tmpl(i, split)
         for c in ud:
-            s += "USING <%s> " % GRAPH_POOL[c - 1]
+            s += "USING %s " % r_graph(c)
         for c in un:
-            s += "USING NAMED <%s> " % GRAPH_POOL[c - 1]
-        return s + "WHERE { %s }" % WHERES[wk][0]
+            s += "USING NAMED %s " % r_graph(c)
+        return s + "WHERE { %s }" % r_where(WHERES[wk][0])
     sil = "SILENT " if op[1] else ""
     if k in ("clear", "drop"):
         return "%s %s%s" % (k.upper(), sil, r_gspec(op[2]))
     return "%s %s%s TO %s" % (k.upper(), sil, r_gd(op[2]), r_gd(op[3]))
 
 
-def r_request(ops, split=False):
-    return " ;\n".join(r_op(o, split) for o in ops)
+def r_request(ops, split=False, spell=None):
+    """the request text; spell = None: absolute IRIs, no prologue; spell = n: every operation carries its own
+    prologue (prologue_of(n, k)) and spells its IRIs through it"""
+    global _SP
+    out = []
+    try:
+        for k, o in enumerate(ops):
+            _SP = None if spell is None else prologue_of(spell, k)
+            out.append(("" if _SP is None else _SP["text"]) + r_op(o, split))
+    finally:
+        _SP = None
+    return " ;\n".join(out)
 
 
 # ---------------------------------------------------------------- Coq text
@@ -341,6 +399,8 @@ class C10(Suite):
         union = rng.random() < 0.5
         # spell graphs with two or more template/data triples as two separate GRAPH groups, interleaved
         split = rng.random() < 0.35
+        # spell IRIs through per-operation PREFIX/BASE declarations (None: absolute IRIs, no prologue)
+        spell = rng.randrange(4) if rng.random() < 0.5 else None
         cids = [0] + rng.sample([1, 2, 5, 3], rng.choice([0, 1, 2, 2, 3]))
         subs = rng.sample(SUBJ, rng.choice([2, 2, 3]))
         pool = []
@@ -405,7 +465,7 @@ class C10(Suite):
                     ops.append([kind, sil, gsp()])
                 else:
                     ops.append([kind, sil, gdd(), gdd()])
-        return {"fe": fe, "union": union, "quads": quads, "empty": empty, "ops": ops, "split": split}
+        return {"fe": fe, "union": union, "quads": quads, "empty": empty, "ops": ops, "split": split, "spell": spell}
 
     def gen_modify(self, rng, plain, allow_q, fat=False):
         w = None
@@ -501,6 +561,7 @@ class C10(Suite):
         union = case["union"]
         ops = case["ops"]
         split = bool(case.get("split"))
+        spell = case.get("spell")
         omegas = [[] for _ in ops]
         case["omegas"] = omegas
         try:
@@ -509,7 +570,7 @@ class C10(Suite):
                     store, front, default = self._fresh(case, union)
                     try:
                         if k:
-                            front.update(r_request(ops[:k], split))
+                            front.update(r_request(ops[:k], split, spell))
                     except Exception:  # noqa: BLE001
                         break  # the request stops here; later operations never run
                     try:
@@ -519,7 +580,7 @@ class C10(Suite):
             store, front, default = self._fresh(case, union)
             raised = False
             try:
-                front.update(r_request(ops, split))
+                front.update(r_request(ops, split, spell))
             except Exception:  # noqa: BLE001
                 raised = True
             extra = {}
@@ -566,7 +627,9 @@ class C10(Suite):
         f = {"fe_" + fe: 1, "union_" + ("on" if case["union"] else "off"): 1, "ops_total": len(case["ops"]),
              "raised": int(obs["raised"]), "changed": int(sorted(obs["quads"]) != sorted(case["quads"])),
              "fresh_bnodes": int(any(x >= 2000 for q in obs["quads"] for x in q[:3])),
-             "split_graph_groups": int(bool(case.get("split")))}
+             "split_graph_groups": int(bool(case.get("split"))),
+             "spelled_with_prologues": int(case.get("spell") is not None),
+             "prologue_changes_within_request": int(case.get("spell") is not None and len(case["ops"]) > 1)}
         for k, o in enumerate(case["ops"]):
             f["op_" + o[0]] = f.get("op_" + o[0], 0) + 1
             if o[0] == "modify":
